@@ -891,6 +891,30 @@ func ruleTypeParams(c *Ctx, r *Repo, rule string) {
 		})
 	}
 	c.Check(ok && sized, rule, "typeParams|index-for-index", r.Pos(fd.Pos()), "type parameter i <- tparams.At(i) with its own name and constraint", "typeParams does not reproduce type parameter i from tparams.At(i) (name and constraint) for every i < tparams.Len()")
+	// the explicit constraint: every embedded type of the constraint interface is looked at, a basic type is the
+	// constraint itself, a union stands for its first term (mechanical-mutation findings: loop from 1, Term(1))
+	if ec := FuncDecl(ip, "explicitConstraintType"); ec != nil {
+		okLoop, okTerm, nLoop := true, true, 0
+		ast.Inspect(ec.Body, func(n ast.Node) bool {
+			switch x := n.(type) {
+			case *ast.ForStmt:
+				nLoop++
+				_, bound, isCounting := countingLoop(info, x)
+				if !isCounting || !strings.HasSuffix(types.ExprString(bound), ".NumEmbeddeds()") {
+					okLoop = false
+				}
+			case *ast.CallExpr:
+				if calleeName(info, x) == "(go/types.Union).Term" && len(x.Args) == 1 {
+					if v, isConst := constInt(info, x.Args[0]); !isConst || v != 0 {
+						okTerm = false
+					}
+				}
+			}
+			return true
+		})
+		c.Check(okLoop && nLoop == 1, rule, "explicitConstraintType|all-embeddeds", r.Pos(ec.Pos()), "every embedded type of the constraint is examined", "explicitConstraintType does not walk j = 0 .. NumEmbeddeds()-1: the first embedded type is skipped or an index past the end is read")
+		c.Check(okTerm, rule, "explicitConstraintType|first-term", r.Pos(ec.Pos()), "a union stands for its first term", "explicitConstraintType takes a union's term other than the first (a single-term union has no other: index out of range)")
+	}
 	// the only early success is "no type parameter list"; a non-nil list always reaches the loop
 	// (mechanical-mutation finding: the negated nil test drops the type parameters of every generic interface)
 	paths, _ := enumerateFunc(info, fd)
@@ -1016,6 +1040,7 @@ func ruleBracketLists(c *Ctx, r *Repo, rule string) {
 	const ts = `P.TypeString<(template.Param).TypeString>()`
 	table := []struct{ fn, elem string }{
 		{"Interface.TypeConstraint", nm + ` + " " + ` + ts},
+		{"Interface.TypeConstraintTest", nm + ` + " " + ` + ts},
 		{"Interface.TypeInstantiation", nm},
 	}
 	for _, row := range table {
@@ -1260,7 +1285,11 @@ func ruleSmallAccessors(c *Ctx, r *Repo, rule string) {
 			has, isCtx, knownHas, knownCtx := false, false, false, false
 			for _, a := range p.Atoms {
 				if v, known := lenAtom(a.Expr, "builtin.len(RECV.Params)", 0); known {
-					// the atom evaluated for an empty list tells "empty"; its negation "has a first parameter"
+					// the atom must separate "no parameter" from "one parameter": false for 0, true for 1 (or the reverse)
+					v1, _ := lenAtom(a.Expr, "builtin.len(RECV.Params)", 1)
+					if v == v1 {
+						ok, why = false, "the length test "+a.Expr+" does not tell a method without parameters from one with a single parameter"
+					}
 					has, knownHas = v != a.Val, true
 					continue
 				}
